@@ -6,6 +6,10 @@ static GLOBAL: hbv::alloc::CountingGlobal = hbv::alloc::CountingGlobal;
 
 fn main() {
     let path = std::env::args().nth(1).expect("usage: hbv-replay <case file>");
+    if cfg!(miri) || std::env::var("HBV_PASSTHROUGH").is_ok() {
+        // exact-size allocations: the sanitizer / Miri sees the true bounds
+        hbv::alloc::set_passthrough(true);
+    }
     let text = std::fs::read_to_string(&path).expect("read case file");
     let case = Case::from_text(&text, &|k| hbv::specs::specs_for(k)).expect("parse case");
     let out = hbv::run_case(&case);
